@@ -71,13 +71,27 @@ func (o outcome) coq() string {
 }
 
 func (o outcome) name() string {
-	return [...]string{"ok", "err", "panic", "timeout"}[o.cls]
+	return [...]string{"ok", "err", "panic", "hang", "skipped"}[o.cls]
 }
 
-const callDeadline = 10 * time.Second
+// Every entry-point call runs on its own goroutine under its own deadline. A call that does not
+// return is recorded as THE failing case with its input (Direct verdict 2, "hang") and the run
+// goes on; after [hangBudget] hangs of one entry point that entry point is not called any more
+// (its spinning goroutines cannot be killed, and the quick tier has to stay around a minute).
+const (
+	callDeadline = 5 * time.Second
+	hangBudget   = 3
+	clsSkipped   = 4
+)
 
-// guard runs f under recover() with a deadline. f returns the projected values and the error.
-func guard(d time.Duration, f func() ([]int64, error)) outcome {
+var hangs = map[string]int{}
+
+// guard runs f (entry point [ep]) under recover() with a deadline. f returns the projected
+// values and the error.
+func guard(ep string, d time.Duration, f func() ([]int64, error)) outcome {
+	if hangs[ep] >= hangBudget {
+		return outcome{cls: clsSkipped, msg: ep + ": not called any more after " + fmt.Sprint(hangBudget) + " hangs"}
+	}
 	ch := make(chan outcome, 1)
 	go func() {
 		defer func() {
@@ -86,7 +100,7 @@ func guard(d time.Duration, f func() ([]int64, error)) outcome {
 				if len(st) > 1500 {
 					st = st[:1500]
 				}
-				ch <- outcome{cls: clsPanic, msg: fmt.Sprintf("%v\n%s", r, st)}
+				ch <- outcome{cls: clsPanic, msg: fmt.Sprintf("%s: %v\n%s", ep, r, st)}
 			}
 		}()
 		v, err := f()
@@ -96,17 +110,47 @@ func guard(d time.Duration, f func() ([]int64, error)) outcome {
 		}
 		ch <- outcome{cls: clsOk, vals: v}
 	}()
+	tm := time.NewTimer(d)
+	defer tm.Stop()
 	select {
 	case o := <-ch:
 		return o
-	case <-time.After(d):
-		return outcome{cls: clsTimeout, msg: "no return within " + d.String()}
+	case <-tm.C:
+		hangs[ep]++
+		return outcome{cls: clsTimeout, msg: ep + ": hang: no return within " + d.String()}
 	}
+}
+
+// one call of a multi-entry-point (layer C) runner
+type epCall struct {
+	ep string
+	f  func() error
+}
+
+// guardAll runs the calls one by one, each under its own deadline; the first panic / hang is the
+// outcome of the input (the remaining calls of this input are not made).
+func guardAll(calls []epCall) outcome {
+	res := outcome{cls: clsOk}
+	for _, c := range calls {
+		c := c
+		o := guard(c.ep, callDeadline, func() ([]int64, error) { return nil, c.f() })
+		switch o.cls {
+		case clsPanic, clsTimeout:
+			return o
+		case clsErr:
+			res = outcome{cls: clsErr, msg: o.msg}
+		}
+	}
+	return res
 }
 
 // emit adds one case. coqTerm is the case constructor applied to its inputs WITHOUT the
 // observation (appended here); "" = layer C (no model; verdict decided here).
 func emit(ctx *core.Ctx, in input, layer string, coqTerm string, o outcome, class string, trivial bool, facts map[string]any) {
+	if o.cls == clsSkipped {
+		ctx.Sink.Count(layer + "/" + in.Kind + "/skipped-after-hangs")
+		return
+	}
 	c := hx.Case{
 		Kind:     in.Kind,
 		Input:    hx.MustJSON(in),
@@ -198,6 +242,8 @@ func gen(ctx *core.Ctx) {
 	genBytes(ctx)
 	genGlue(ctx)
 	genFuzz(ctx)
+	genStructured(ctx)
+	ctx.Sink.Extra["hangs_per_entry_point"] = hangs
 	ctx.Sink.Extra["excluded"] = []string{
 		"cipher.AEAD Seal/Open called directly with a wrong-size nonce (standard-library contract)",
 		"cron.NewParser with both optionals (documented panic)",
